@@ -32,7 +32,7 @@ FILES = {
     'simulate_recession.py': ['C18', 'C19'],
     'pestfiles.py': ['C19'],
     'set_curvature.py': ['C20', 'C18'],
-    'user_interface.py': ['C20', 'C09'],
+    'user_interface.py': ['C20', 'C17', 'C18', 'C19'],
 }
 CMP = {ast.Lt: '<=', ast.LtE: '<', ast.Gt: '>=', ast.GtE: '>', ast.Eq: '!=', ast.NotEq: '=='}
 
@@ -94,6 +94,48 @@ def sites(path):
     return out
 
 
+SQL_FLIPS = [(' >= ', ' > '), (' <= ', ' < '), (' > ', ' >= '), (' < ', ' <= '), (' AND ', ' OR '), ('min(', 'max('),
+             ('max(', 'min('), ('avg(', 'sum('), ('JOIN ', 'LEFT JOIN '), (' / 3600', ' / 360'), (' DESC', ' ASC'),
+             ('count(distinct ', 'count('), (' = 1', ' = 0'), ('ORDER BY zeta_mm', 'ORDER BY zeta_mm DESC')]
+SCHEMA_PROPS = ['C13', 'C09', 'C03', 'C18', 'C19', 'C10', 'C20', 'C17']
+
+
+def sql_sites(path, is_python):
+    """One-token mutants inside SQL text: the schema file, or string constants of a Python file that look like SQL."""
+    src = open(path).read()
+    lines = src.split('\n')
+    spans = []
+    if is_python:
+        for node in ast.walk(ast.parse(src)):
+            if isinstance(node, ast.Constant) and isinstance(node.value, str) and \
+                    any(k in node.value.upper() for k in ('SELECT ', 'INSERT ', 'UPDATE ', 'DELETE ')):
+                spans.append((node.lineno, node.end_lineno))
+    else:
+        spans.append((1, len(lines)))
+    out = []
+    for a, b in spans:
+        for ln in range(a, b + 1):
+            text = lines[ln - 1]
+            if text.strip().startswith('--'):
+                continue
+            for old, new in SQL_FLIPS:
+                col = text.find(old)
+                if col >= 0 and not (old == 'JOIN ' and 'LEFT' in text):
+                    out.append(dict(kind='sql', span=(ln, col, col + len(old)), new=new, old=old, line=text.strip()[:100]))
+    return out
+
+
+def cmd_list_sql(per_file, seed):
+    rng = random.Random(seed)
+    for fn in ['schema.sql'] + list(FILES):
+        path = os.path.join(REPO, 'spowtd', fn)
+        ss = sql_sites(path, fn.endswith('.py'))
+        rng.shuffle(ss)
+        props = SCHEMA_PROPS if fn == 'schema.sql' else FILES[fn]
+        for s in ss[:per_file * (3 if fn == 'schema.sql' else 1)]:
+            print(json.dumps(dict(file=fn, props=props, **s)))
+
+
 def cmd_list(per_file, seed):
     rng = random.Random(seed)
     for fn, props in FILES.items():
@@ -105,7 +147,7 @@ def cmd_list(per_file, seed):
 
 
 def cmd_run(m):
-    tag = '%s_%d_%d' % (m['file'].replace('.py', ''), m['span'][0], m['span'][1])
+    tag = '%s_%d_%d_%s' % (m['file'].replace('.py', '').replace('.', '_'), m['span'][0], m['span'][1], m['kind'])
     copy = '/tmp/mut_%s' % tag
     scratch = '/tmp/mut_%s.out' % tag
     shutil.rmtree(copy, ignore_errors=True)
@@ -118,8 +160,9 @@ def cmd_run(m):
     open(path, 'w').write('\n'.join(lines))
     res = dict(file=m['file'], line=ln, kind=m['kind'], old=m['old'], new=m['new'], text=m['line'], caught_by=[],
                silent=[])
-    rc = subprocess.call(['/venv/bin/python', '-c', 'import spowtd.%s' % m['file'][:-3]],
-                         env=dict(os.environ, PYTHONPATH=copy), stdout=subprocess.DEVNULL, stderr=subprocess.DEVNULL)
+    rc = 0 if not m['file'].endswith('.py') else subprocess.call(
+        ['/venv/bin/python', '-c', 'import spowtd.%s' % m['file'][:-3]],
+        env=dict(os.environ, PYTHONPATH=copy), stdout=subprocess.DEVNULL, stderr=subprocess.DEVNULL)
     if rc != 0:
         res['verdict'] = 'does-not-import'
     else:
@@ -137,7 +180,11 @@ def cmd_run(m):
 
 
 if __name__ == '__main__':
-    if sys.argv[1] == 'list':
+    if sys.argv[1] == 'list-sql':
+        per = int(sys.argv[sys.argv.index('--per-file') + 1]) if '--per-file' in sys.argv else 6
+        sd = int(sys.argv[sys.argv.index('--seed') + 1]) if '--seed' in sys.argv else 0
+        cmd_list_sql(per, sd)
+    elif sys.argv[1] == 'list':
         per = int(sys.argv[sys.argv.index('--per-file') + 1]) if '--per-file' in sys.argv else 10
         sd = int(sys.argv[sys.argv.index('--seed') + 1]) if '--seed' in sys.argv else 0
         cmd_list(per, sd)
